@@ -35,7 +35,8 @@ class KeyGen:
 
     def generate(self):
         keys = fixture_keys()
-        k = keys[self.i % len(keys)]
+        # the case's hash salt also selects which fixture keys the case uses: the storage index, and with it the servers' permuted order, varies between cases
+        k = keys[(self.i + boot._hash_salt[0]) % len(keys)]
         self.i += 1
         return defer.succeed(k)
 
